@@ -53,6 +53,7 @@ class SetObj:
 def run(core_mir, wasm_mir, shape, N, repo_root):
     raw = load_functions(core_mir)
     wasm = load_functions(wasm_mir)
+    wasm_all = dict(wasm)
     # harper-wasm has its own `Span`, `Lint`, `Suggestion` types whose names collide with harper-core's: only the `Linter`
     # methods (and their closures) and the wasm `Lint::new` are taken from its MIR
     keep = {}
@@ -85,6 +86,8 @@ def run(core_mir, wasm_mir, shape, N, repo_root):
     f_lint, f_ignore, f_apply = wfind("::lint"), wfind("::ignore_lint"), wfind("::apply_suggestion")
     if shape == ["words"]:
         return run_words(raw, enums, wfind, repo_root)
+    if shape == ["title"]:
+        return run_title(raw, wasm_all, enums, N, repo_root)
     ex = Explorer()
     result = {"shape": shape, "lints": N, "violations": [], "panics": [], "functions": set()}
 
@@ -360,6 +363,87 @@ def run(core_mir, wasm_mir, shape, N, repo_root):
             uniq.append(v)
     result["violations"] = uniq[:6]
     result["panics"] = result["panics"][:5]
+    return result
+
+
+def run_title(raw, wasm_all, enums, T, repo_root):
+    """scenario `title`: the exported `to_title_case(text)` on a text of T characters, each a letter, a blank, a line feed or a carriage
+    return (forked / symbolic); `make_title_case_str` is held to its contract (C18): a string of the same length that differs only in
+    letter case. The exported function must keep that contract for the whole text: same length, differences only in letter case."""
+    cands = [n for n in wasm_all if n.split("::")[-1] == "to_title_case" and "{closure" not in n and re.match(r"^fn .*to_title_case\(_1: (std::string::)?String\) -> (std::string::)?String", wasm_all[n][0][0])]
+    if len(cands) != 1:
+        raise Unsupported(f"cannot resolve harper-wasm to_title_case: {cands[:3]}")
+    fn = cands[0]
+    raw = dict(raw)
+    raw[fn] = wasm_all[fn]
+    for n, b in wasm_all.items():
+        if n.startswith(fn + "::"):
+            raw[n] = b  # closures and promoted constants of the function
+    ex = Explorer()
+    result = {"shape": ["title"], "chars": T, "violations": [], "panics": [], "functions": set()}
+    chars = [z3.BitVec(f"c{i}", 32) for i in range(T)]
+
+    def lower_(c):
+        return z3.If(z3.And(z3.UGE(c, 65), z3.ULE(c, 90)), c + 32, c)
+
+    def body(ctx):
+        try:
+            body_(ctx)
+        except PathEnd:
+            pass
+
+    def body_(ctx):
+        for c in chars:
+            ctx.assume(z3.Or(z3.And(z3.UGE(c, 97), z3.ULE(c, 122)), z3.And(z3.UGE(c, 65), z3.ULE(c, 90)), c == 32, c == 10, c == 13))
+        counter = [0]
+
+        def title_stub(it_, callee, args):
+            src = deref(args[0])
+            out = []
+            for c in src.chars:
+                counter[0] += 1
+                up = z3.Bool(f"capitalise#{counter[0]}")
+                out.append(Int(z3.If(z3.And(up, z3.UGE(c.t, 97), z3.ULE(c.t, 122)), c.t - 32,
+                                     z3.If(z3.And(z3.Not(up), z3.UGE(c.t, 65), z3.ULE(c.t, 90)), c.t + 32, c.t)), 32, False))
+            return StringObj(out)
+
+        resolve = {r"^(harper_core::)?make_title_case_str::<": title_stub,
+                   r"^FstDictionary::curated$": lambda it_, c, a: BoxRef(Cell(Adt("StubDictionary", [])))}
+        it = Interp(raw, MODELS, ctx, resolve, enums=enums)
+
+        def describe(model):
+            if model is None:
+                return None
+            return {"text": "".join(chr(model.eval(c, model_completion=True).as_long()) for c in chars)}
+        try:
+            out = it.call_fn(fn, [StringObj([Int(c, 32) for c in chars])])
+        except Infeasible:
+            return
+        finally:
+            result["functions"] |= it.called
+            for msg, where, model in it.panics:
+                result["panics"].append({"msg": msg, "where": where, "input": describe(model)})
+        if it.panics:
+            return
+        got = [c.t for c in deref(out).chars]
+        if len(got) != T:
+            claim, what = z3.BoolVal(False), f"to_title_case returned {len(got)} characters for a text of {T}"
+        else:
+            claim, what = z3.And(*[lower_(x) == lower_(y) for x, y in zip(got, chars)]), "to_title_case changed more than letter case"
+        ok, model = ctx.valid(claim)
+        if not ok:
+            result["violations"].append({"what": what, "input": describe(model)})
+
+    t0 = time.time()
+    ex.run(body)
+    result.update(paths=ex.stats["paths"], solver_queries=ex.stats["queries"], solver_s=round(ex.stats["solver_s"], 3),
+                  forks=ex.stats["forks"], wall_s=round(time.time() - t0, 2), functions=sorted(result["functions"]))
+    seen, uniq = set(), []
+    for v in result["violations"]:
+        if v["what"] not in seen:
+            seen.add(v["what"])
+            uniq.append(v)
+    result["violations"] = uniq[:6]
     return result
 
 
